@@ -20,6 +20,7 @@ import (
 	"context"
 	"fmt"
 	"io"
+	"strings"
 
 	"github.com/containerd/containerd/v2/core/content"
 	"github.com/containerd/containerd/v2/core/images"
@@ -122,6 +123,9 @@ func LayerConvertFunc(opts ...estargz.Option) converter.ConvertFunc {
 			} else {
 				newDesc.MediaType += "+gzip"
 			}
+		} else if strings.HasSuffix(newDesc.MediaType, "+zstd") {
+			// The source was zstd-compressed but eStargz is gzip-compressed.
+			newDesc.MediaType = strings.TrimSuffix(newDesc.MediaType, "+zstd") + "+gzip"
 		}
 		newDesc.Digest = w.Digest()
 		newDesc.Size = n
